@@ -476,6 +476,9 @@ func (c *ssaCtx) op(f *ssa.Function, in ssa.Instruction) string {
 }
 
 func (c *ssaCtx) relFile(name string) string {
+	if name == "" {
+		return "-" // synthetic functions have no position
+	}
 	if r, err := filepath.Rel(c.repo, name); err == nil && !strings.HasPrefix(r, "..") {
 		return filepath.ToSlash(r)
 	}
